@@ -128,6 +128,7 @@ def run(ctx: Ctx) -> None:
             ctx.nontrivial.add(jhash([c["written"], c["icpt"], c["fid"], c["full_rank"], c["na"], c["cluster"]]))
         for b in bad:
             ctx.violation({k: b[k] for k in ("formula", "fid", "output", "full_rank", "na", "cluster")} | {"accessor": b["why"]}, b, kind="replay")
+    ctx.require("replay: cases the model builds", sum(1 for c in cases if not (c["fails"] or c["empty"])), 1000)
     for c in [c for c in cases if len(c["names"]) >= 4 and len(c["terms"]) >= 3][:2]:
         ctx.sample({"formula": matlib.render_formula(c["written"], c["icpt"]), "terms": c["terms"], "slices": c["slices"], "names": c["names"]})
     ctx.exhaustive = True
